@@ -54,6 +54,13 @@ pub struct Case {
     /// 0 local only, 1 recursive, 2 forwarding
     pub mode: u8,
     pub upstream_chases: bool,
+    /// question class: 1 (IN) or 255 (ANY; the records are class IN all the same)
+    #[serde(default = "class_in")]
+    pub qclass: u16,
+}
+
+fn class_in() -> u16 {
+    1
 }
 
 fn space(s: Src) -> &'static str {
@@ -199,7 +206,7 @@ impl Prop for Chains {
         // the end of the chain is an ordinary name
         let terminal_src = if terminal_src == Src::AuthWild { Src::Auth } else { terminal_src };
         let back_edge = if !links.is_empty() && g.chance(1, 6) { Some(g.below(links.len()) as u8) } else { None };
-        Case { links, terminal_src, terminal, back_edge, qtype: g.pick(&[T_A, T_AAAA, T_TXT, T_MX]), mode, upstream_chases: g.bool() }
+        Case { links, terminal_src, terminal, back_edge, qtype: g.pick(&[T_A, T_AAAA, T_TXT, T_MX]), mode, upstream_chases: g.bool(), qclass: if g.chance(1, 6) { 255 } else { 1 } }
     }
 
     fn check(&self, c: &Case) -> Outcome {
@@ -302,7 +309,7 @@ impl Prop for Chains {
             1 => Mode::Recursive { protocol: ProtocolMode::OnlyV4, port: 53 },
             _ => Mode::Forwarding { address: "192.0.2.53:53".parse::<SocketAddr>().unwrap() },
         };
-        let q = WQ { name: qname.clone(), qtype: c.qtype, qclass: 1 };
+        let q = WQ { name: qname.clone(), qtype: c.qtype, qclass: c.qclass };
         let r = run_resolve(&mock, mode, &zones, &cache, &to_question(&q));
         clock::set_virtual_nanos(None);
 
@@ -386,7 +393,7 @@ pub fn def() -> PropertyDef {
     PropertyDef {
         id: "C10",
         level: "exploration",
-        rule: "An alias graph: a chain of 0..40 links, each link placed in an authoritative local zone, the non-authoritative local zone, the pre-seeded cache, an upstream authoritative server (recursive mode) or the forwarder (forwarding mode; everything after a forwarder link is the forwarder's too); optionally the last link points back into the chain (cycle); the end of the chain has data of the asked type (plus another type), no data, does not exist, or its source is silent / not reachable in the mode; question types A, AAAA, TXT, MX; modes local-only, recursive, forwarding; upstream servers with and without in-server chasing. Every link and final record carries a unique TTL tag. Oracle: the answer is c1..cm ++ finals with ci = link i of the real chain (owner, target, tag; so owners chain up and are distinct), finals only after the whole chain, all of the asked type at the final target, nothing twice; acyclic chains of <= 24 links whose links and end are all obtainable in the mode come back complete; cycles and longer chains give an error or a proper prefix; no panic; virtual time <= 60 s; runs on a 2 MiB thread. Non-trivial = at least two links from two sources, a cycle, or >= 30 links. Distinct by hash of the case.",
+        rule: "An alias graph: a chain of 0..40 links, each link placed in an authoritative local zone, the non-authoritative local zone, the pre-seeded cache, an upstream authoritative server (recursive mode) or the forwarder (forwarding mode; everything after a forwarder link is the forwarder's too); optionally the last link points back into the chain (cycle); the end of the chain has data of the asked type (plus another type), no data, does not exist, or its source is silent / not reachable in the mode; question types A, AAAA, TXT, MX, question class IN or (1 in 6) ANY; modes local-only, recursive, forwarding; upstream servers with and without in-server chasing. Every link and final record carries a unique TTL tag. Oracle: the answer is c1..cm ++ finals with ci = link i of the real chain (owner, target, tag; so owners chain up and are distinct), finals only after the whole chain, all of the asked type at the final target, nothing twice; acyclic chains of <= 24 links whose links and end are all obtainable in the mode come back complete; cycles and longer chains give an error or a proper prefix; no panic; virtual time <= 60 s; runs on a 2 MiB thread. Non-trivial = at least two links from two sources, a cycle, or >= 30 links. Distinct by hash of the case.",
         assumptions: vec!["upstream replies list chains in chain order (D3)", "question types CNAME and ANY are excluded (D4)"],
         parts: vec![Box::new(Chains)],
         budget_s: |t| t.pick(900, 10_800),
